@@ -818,6 +818,8 @@ type stats struct {
 	maxRecv, maxOps                         int64
 	strOpsSW, strOpsPlain                   int64
 	scenLong, longOps, longInter            int64
+	afterCloseProbes, afterCloseSame        int64
+	afterCloseTotal0                        int64
 	// deep (thorough-only) coverage
 	maxTotal, crossed31, crossed32, boundaryHits, recvAbove31 int64
 	via                                                       [viaCount]int64
@@ -986,6 +988,12 @@ func (s *scen) check(st *stats) result {
 	if !s.sawClosed {
 		return result{key: "close:channel-left-open", exp: "range loop over Status() ends after Close()", obs: "consumer ended without seeing the channel closed"}
 	}
+	// (4) Close() has returned and the consumer has drained the channel to its end: whoever asks for
+	// Status() now - again, for the first time, from several goroutines - gets a channel that is
+	// closed. Decided by a non-blocking receive (a nil or open channel takes the default branch).
+	if r := s.probeAfterClose(st); r.key != "" {
+		return r
+	}
 
 	// observations
 	nops := int64(len(cs.Ops))
@@ -1125,6 +1133,80 @@ func (s *scen) deepStats(st *stats, total int) {
 	}
 }
 
+// probeClosed is the structural test "this channel is closed": a non-blocking receive.
+func probeClosed(ch chan int) string {
+	if ch == nil {
+		return "nil"
+	}
+	select {
+	case v, ok := <-ch:
+		if ok {
+			return fmt.Sprintf("delivers-value (%d)", v)
+		}
+		return ""
+	default:
+		return "open"
+	}
+}
+
+func afterCloseResult(why, who string, total int) result {
+	k := why
+	if i := strings.IndexByte(k, ' '); i >= 0 {
+		k = k[:i]
+	}
+	return result{key: "close:status-after-close:" + k,
+		exp: "Status() called after Close() returned yields a closed channel (a receive returns ok=false at once)",
+		obs: fmt.Sprintf("%s: non-blocking receive on the channel Status() returned after Close(): %s (total %d)", who, why, total)}
+}
+
+// probeAfterClose: the harness goroutine asks twice, two fresh goroutines ask concurrently.
+func (s *scen) probeAfterClose(st *stats) (res result) {
+	defer func() {
+		if r := recover(); r != nil {
+			res = result{key: "panic:Status", exp: "no panic out of ProgressWriter.Status", obs: fmt.Sprintf("panic: %v", r)}
+		}
+	}()
+	held := s.ch
+	if v, ok := s.lazyCh.Load().(chan int); ok && held == nil {
+		held = v
+	}
+	for i := 0; i < 2; i++ {
+		ch := s.pw.Status()
+		st.afterCloseProbes++
+		if ch == held {
+			st.afterCloseSame++
+		}
+		if why := probeClosed(ch); why != "" {
+			return afterCloseResult(why, fmt.Sprintf("consumer asking again (call %d)", i+1), s.sk.total)
+		}
+	}
+	var whys [2]string
+	var wg sync.WaitGroup
+	for g := range whys {
+		wg.Add(1)
+		go func(g int) {
+			defer wg.Done()
+			defer func() {
+				if r := recover(); r != nil {
+					whys[g] = fmt.Sprintf("panic: %v", r)
+				}
+			}()
+			whys[g] = probeClosed(s.pw.Status())
+		}(g)
+	}
+	wg.Wait()
+	st.afterCloseProbes += 2
+	for g, why := range whys {
+		if why != "" {
+			return afterCloseResult(why, fmt.Sprintf("second consumer (goroutine %d of 2 asking concurrently)", g+1), s.sk.total)
+		}
+	}
+	if s.sk.total == 0 {
+		st.afterCloseTotal0++
+	}
+	return result{}
+}
+
 // runCase executes a scenario; an inconclusive watchdog is retried twice.
 func runCase(cs Case, st *stats) (key, expected, observed, inconclusive string) {
 	var r result
@@ -1145,7 +1227,7 @@ type mon struct{}
 func (mon) Name() string { return "progress" }
 
 func (mon) Level(string) (string, string) {
-	return "exploration", "seeded random scenarios {wrapped writer kind full/shortErr/shortNil/fail0/failN/mixed × io.StringWriter or not} × {op list of Write/WriteString, sizes 0/1/7/4096/1MiB and random, ≤ 50 ops} × {consumer absent until Close, eager, slow, late start, stops-then-resumes}, run as real goroutines at GOMAXPROCS 1/2/4/16 plain and under -race; oracle offline over the writer log (n, err, Size(), Σn of the wrapped writer) and the consumer log; non-blocking decided from a goroutine snapshot, never from time; plus long scenarios (20000..100000 writes of 1..16 bytes next to an eager consumer) and lifetime batches (one or two small writes then Close, consumer busy during the last write, its first receive aligned with Close by a spin barrier with seeded offsets on either side); Write/Close never returning is decided from two identical consecutive goroutine snapshots of an at-rest state; callers scenarios send the data the way real callers do - io.Copy / io.CopyN / io.CopyBuffer from sources without WriteTo (io.LimitReader, plain struct reader, os.Pipe read end, *os.File), bytes.Buffer / strings.Reader WriteTo, io.WriteString, fmt.Fprintf, bufio.Writer (Write/WriteString/ReadFrom + Flush) - over wrapped writers that do or do not implement io.ReaderFrom, scripted (short / failing in the middle of a copy, reporting what they really consumed) or backed by the OS (temp file, /dev/null, /dev/full, broken pipe, pipe whose reader leaves after a quota), ground truth = every n the wrapped writer's Write/WriteString/ReadFrom returned; the method set of *ProgressWriter is recorded (reflect) as an observed set; thorough adds deep scenarios: seeded histories of 1000..8000 ops, sizes 2^k-1/2^k/2^k+1 up to 64 MiB, write sequences whose prefix sums land exactly on 2^31-1/2^31/2^31+1 and likewise around 2^32 and 2^33 (Size() is an int; totals up to 8 GiB), ops issued through io.WriteString / io.Copy (one op = several wrapped Writes), wrapped writers that also implement io.ReaderFrom or park inside Write until a helper releases them, consumers that are bursty, arrive at the last write or exactly at Close, fetch Status() late or again before every receive, long scenarios of up to 500000 writes, all at GOMAXPROCS 1/2/4/16, 1 or 4 scenarios at once, plain and under -race; distinct_nontrivial = distinct scenario shapes (writer kind, ops with method/size/behaviour, consumer script) with at least one op and a non-zero total"
+	return "exploration", "seeded random scenarios {wrapped writer kind full/shortErr/shortNil/fail0/failN/mixed × io.StringWriter or not} × {op list of Write/WriteString, sizes 0/1/7/4096/1MiB and random, ≤ 50 ops} × {consumer absent until Close, eager, slow, late start, stops-then-resumes}, run as real goroutines at GOMAXPROCS 1/2/4/16 plain and under -race; oracle offline over the writer log (n, err, Size(), Σn of the wrapped writer) and the consumer log; non-blocking decided from a goroutine snapshot, never from time; plus long scenarios (20000..100000 writes of 1..16 bytes next to an eager consumer) and lifetime batches (one or two small writes then Close, consumer busy during the last write, its first receive aligned with Close by a spin barrier with seeded offsets on either side); Write/Close never returning is decided from two identical consecutive goroutine snapshots of an at-rest state; callers scenarios send the data the way real callers do - io.Copy / io.CopyN / io.CopyBuffer from sources without WriteTo (io.LimitReader, plain struct reader, os.Pipe read end, *os.File), bytes.Buffer / strings.Reader WriteTo, io.WriteString, fmt.Fprintf, bufio.Writer (Write/WriteString/ReadFrom + Flush) - over wrapped writers that do or do not implement io.ReaderFrom, scripted (short / failing in the middle of a copy, reporting what they really consumed) or backed by the OS (temp file, /dev/null, /dev/full, broken pipe, pipe whose reader leaves after a quota), ground truth = every n the wrapped writer's Write/WriteString/ReadFrom returned; the method set of *ProgressWriter is recorded (reflect) as an observed set; thorough adds deep scenarios: seeded histories of 1000..8000 ops, sizes 2^k-1/2^k/2^k+1 up to 64 MiB, write sequences whose prefix sums land exactly on 2^31-1/2^31/2^31+1 and likewise around 2^32 and 2^33 (Size() is an int; totals up to 8 GiB), ops issued through io.WriteString / io.Copy (one op = several wrapped Writes), wrapped writers that also implement io.ReaderFrom or park inside Write until a helper releases them, consumers that are bursty, arrive at the last write or exactly at Close, fetch Status() late or again before every receive, long scenarios of up to 500000 writes, all at GOMAXPROCS 1/2/4/16, 1 or 4 scenarios at once, plain and under -race; after Close() returned and the consumer drained the channel, Status() is asked again (twice by the same goroutine, by two fresh goroutines concurrently, in lifetimes by consumer and writer goroutine) and must yield a closed channel, decided by a non-blocking receive; distinct_nontrivial = distinct scenario shapes (writer kind, ops with method/size/behaviour, consumer script) with at least one op and a non-zero total"
 }
 
 func (mon) Assumptions(string) []string {
@@ -1387,6 +1469,9 @@ func (mn mon) Run(sh drv.Shard, c *drv.Ctx) {
 		}
 		c.Add("bytes_reported", st.bytesReported)
 		c.Add("scen_long", st.scenLong)
+		c.Add("status_after_close_probes", st.afterCloseProbes)
+		c.Add("status_after_close_same_channel_as_before", st.afterCloseSame)
+		c.Add("status_after_close_scen_with_total_0", st.afterCloseTotal0)
 		if len(st.prof) > 0 {
 			pre := "deep"
 			if a.Callers {
@@ -1495,6 +1580,7 @@ func reportLife(c *drv.Ctx, out lifeOutcome, cs Case) {
 	c.Add("life_barrier_before_last_write", n.early.Load())
 	c.Add("life_lazy_status", n.lazy.Load())
 	c.Add("life_WriteString_on_StringWriter", n.strSW.Load())
+	c.Add("status_after_close_probes", n.afterClose.Load())
 	c.Add("size_checks", n.sizeChecks.Load())
 	c.Add("watchdog_snapshots", out.snapshots)
 }
@@ -1518,6 +1604,7 @@ func (mon) Finish(prop, tier string, m *drv.Merged) (inc []string) {
 	for _, k := range []string{"sends_skipped(no receiver ready)", "scen_whole_op_list_without_consumer", "scen_absent",
 		"wrapped_calls_shortErr", "wrapped_calls_shortNil", "wrapped_calls_fail0", "wrapped_calls_failN", "ops_WriteString_on_StringWriter", "ops_WriteString_on_plain_Writer",
 		"scen_stopresume_received_before_and_after", "scen_long", "long_intermediate_values_received",
+		"status_after_close_probes", "status_after_close_scen_with_total_0",
 		"lifetimes_checked", "life_first_receive_started_before_Close_entered", "life_first_receive_started_after_Close_entered"} {
 		if m.Sum[k] == 0 {
 			inc = append(inc, "observed nothing of: "+k)
